@@ -192,7 +192,31 @@ def check(pid, case, lines):
     g = generic(case, lines, allow_assert=False)
     if g:
         return g
-    return f(case, lines) if f else None
+    try:
+        return f(case, lines) if f else None
+    except Exception:
+        # a monitor that cannot even parse what the client wrote: if a written packet is not well-formed MQTT 5 that is the
+        # failing input; anything else is a defect of the monitor itself and is raised
+        import mqtt as M_
+        wire = bytearray()
+        for l in lines:
+            p = l.split(" ", 2)
+            if len(p) == 3 and p[1] == "W":
+                wire += M_.unhex(p[2])
+        try:
+            pk = M_.split_packets(bytes(wire))
+        except Exception:
+            pk = None
+        if pk is None:
+            return "malformed: the bytes written are not a concatenation of whole MQTT packets"
+        for q in pk:
+            try:
+                e = M_.wellformed_client_packet(q)
+            except Exception as ex:
+                e = "cannot be parsed (%s)" % type(ex).__name__
+            if e:
+                return "malformed: a written packet (%s...) is not well-formed MQTT 5: %s" % (M_.hx(q[:12]), e)
+        raise
 
 
 def known_class(pid, case, lines):
